@@ -319,31 +319,26 @@ class ParametriseTransformation(Transformation):
                     call_map[call] = call.clone(arguments=arguments)
             routine.body = Transformer(call_map).visit(routine.body)
 
-            # remove declarations
+            # turn the declarations of parametrised variables into parameter declarations, in place
+            # (they may depend on earlier declarations, e.g. a kind parameter, and later ones depend on them)
             declarations = FindNodes(ir.VariableDeclaration).visit(routine.spec)
-            parameter_declarations = []
             decl_map = {}
             for decl in declarations:
+                parameter_declarations = []
                 symbols = []
                 for smbl in decl.symbols:
                     if smbl in vars2p:
                         parameter_declarations.append(decl.clone(symbols=(smbl.clone(
                             type=decl.symbols[0].type.clone(parameter=True, intent=None,
                                                             initial=sym.IntLiteral(
-                                                                dic2p[smbl.name]))),))) # or smbl.name?
+                                                                dic2p[smbl.name]))),)))
                     else:
                         symbols.append(smbl.clone())
-
+                if parameter_declarations:
                     if symbols:
-                        decl_map[decl] = decl.clone(symbols=as_tuple(symbols))
-                    else:
-                        decl_map[decl] = None
+                        parameter_declarations.append(decl.clone(symbols=as_tuple(symbols)))
+                    decl_map[decl] = as_tuple(parameter_declarations)
             routine.spec = Transformer(decl_map).visit(routine.spec)
-
-            # introduce parameter declarations
-            declarations = FindNodes(ir.VariableDeclaration).visit(routine.spec)
-            for parameter_declaration in parameter_declarations:
-                routine.spec.insert(routine.spec.index(declarations[0]), parameter_declaration)
 
             # replace all parameter variables with their corresponding value (inline constant parameters)
             if self.replace_by_value:
